@@ -533,6 +533,7 @@ class _ThreadingShim(types.ModuleType):
         self.local = _real_threading.local
         self.get_ident = lambda: sched().current
         self.current_thread = _current_thread
+        self.main_thread = lambda: _MAIN_THREAD
 
     def __getattr__(self, name: str) -> Any:
         raise HarnessModelError(f"threading.{name} is not modelled by the cooperative shim")
